@@ -1406,6 +1406,18 @@ func groupAnon() {
 	h.add("P", ptr(ref("i.Item")), 2, "optional")
 	h = newStruct("anon")
 	h.add("M", mapOf(ptr(ref("Item")), list(ref("a.B"))), 1, "default")
+	// Go type names as redundant annotations: every predeclared name leaves the type as it is (D24: `int`
+	// named `int` used to become a 32-bit enum), a defined integer type named in its annotation is an enum
+	goName := func(kind string) *Ty { t := prim(kind); t.Ann = kind; return t }
+	h = newStruct("anon")
+	h.add("A", goName("int"), 1, "default")
+	h.add("B", list(goName("int")), 2, "default")
+	h.add("C", mapOf(goName("int"), prim("string")), 3, "default")
+	h.add("D", goName("int64"), 4, "default")
+	h.add("E", goName("int32"), 5, "optional")
+	h.add("F", goName("float64"), 6, "default")
+	h.add("G", goName("bool"), 7, "default")
+	h.add("H", ptr(goName("int")), 8, "optional")
 }
 
 // ---------- emission ----------
